@@ -7,7 +7,7 @@ os.environ["VERIF_EVIDENCE_DIR"] = "/tmp/verif_seed_evidence"
 PROP = {"D1-revert": "C17", "D12-revert": "C10", "D17-revert": "C14", "D2-revert": "C14", "D3evict-revert": "C10",
         "D3hang-revert": "C10", "D4-revert": "C11", "D5-revert": "C13", "D6-revert": "C15", "D7-revert": "C18",
         "D8a-revert": "C19", "D9-revert": "C07", "D19-revert": "C20", "D10-revert": "C20", "D20-revert": "C20",
-        "D21-revert": "C20", "D22-revert": "C20", "D23-revert": "C12", "D24-revert": "C06", "D25-revert": "C15"}
+        "D21-revert": "C20", "D22-revert": "C20", "D23-revert": "C12", "D24-revert": "C06", "D25-revert": "C15", "D26-revert": "C16"}
 # changes filed by their author under one property but made in code another property's check observes
 # (a consumer of the anchored code): the check that sees that code is the one run against them
 CROSS = {"C01-r3-2": "C11", "C01-r3-3": "C08", "C01-r3-4": "C07", "C04-r3-3": "C08",
